@@ -21,6 +21,7 @@ RULE = ("Hypothesis draws 1-3 components, each a template (box 7..13 per side, o
         "partition and order, simulate(union) == sum of simulate(parts), (d) outside molecules ignored, (e) loading a "
         "subtomogram at a grid-coincident molecule returns the template, (f) simulate_2d == z-projection of the 3-D "
         "simulation. Non-trivial = an even side, a fractional/rotated pose, or >= 2 components.")
+RULE += (" " + 'Also: dense templates for components whose molecules are all grid-coincident, volumes with one axis of 3-8 voxels or of 1040-3100 voxels, templates given as providers, simulators whose components were first registered with another template, simulated and overwritten.')
 TOLERANCES = {"exact paste / loader round trip": "1e-4 * max", "reference order<=1": "2e-4 * max", "reference order 3": "2e-2 * max",
               "partition/order": "1e-5 * max", "2-D projection": "1e-4 * max * Z"}
 ASSUMPTIONS = ["template density vanishes outside the ball of radius (min(shape)-1)/2 - 2 around the box centre, so neither rotation nor a sub-pixel shift moves density out of the template-sized fragment box"]
